@@ -417,6 +417,37 @@ func init() {
 				}
 			}
 		}
+		// a block that carries nothing, in the old block format and in the new one,
+		// at whatever height: what it pays its miner is the reward
+		sc = n.fork()
+		for _, oldFormat := range []bool{true, false} {
+			for _, d := range []int{1, -1, 1000} {
+				oldFormat, d := oldFormat, d
+				if !oldFormat && !sc.v2ok() {
+					continue
+				}
+				verr, ok := sc.offer(nil, nil, offerOpt{mutate: func(b *types.Block, bs *consensus.V1BlockSupplement) {
+					if oldFormat {
+						b.V2 = nil
+					}
+					switch {
+					case d == 1000:
+						b.MinerPayouts[0].Value = b.MinerPayouts[0].Value.Add(types.Siacoins(1000))
+					case d > 0:
+						b.MinerPayouts[0].Value = b.MinerPayouts[0].Value.Add(one)
+					default:
+						b.MinerPayouts[0].Value = b.MinerPayouts[0].Value.Sub(one)
+					}
+				}})
+				era := "v1"
+				if sc.child() >= w.net.HardforkV2.RequireHeight {
+					era = "after-require"
+				} else if sc.child() >= w.net.HardforkV2.AllowHeight {
+					era = "v2-allowed"
+				}
+				w.expect("C01", fmt.Sprintf("B1-empty-block-oldformat=%v-%s-payout%+d", oldFormat, era, d), verr, ok, false, fmt.Sprintf("a block without transactions (old format: %v) at height %d whose miner payout differs from the reward by %+d", oldFormat, sc.child(), d))
+			}
+		}
 		sc = n.fork()
 		if sc.v2ok() {
 			if e, ok := pickSC(w, sc.ownedSC(false, true)); ok && e.SiacoinOutput.Value.Cmp(types.Siacoins(1)) > 0 {
